@@ -28,6 +28,7 @@ import (
 	"pgregory.net/rapid"
 
 	"github.com/ipfs/go-graphsync"
+	"github.com/ipfs/go-graphsync/cidset"
 	gsimpl "github.com/ipfs/go-graphsync/impl"
 	gsmsg "github.com/ipfs/go-graphsync/message"
 
@@ -45,6 +46,9 @@ type ReqSpec struct {
 	ReqWGateAt  int `json:"req_wgate_at"`  // a second stall point of the same kind
 	Prio        int `json:"prio"`
 	DedupKey    int `json:"dedup_key"` // 0 = none, else dedup-by-key "k<n>" and an own requestor store
+	// DNS (keyed requests only): blocks (indices into the build order) the request lists as do-not-send; the
+	// request's own store holds them from the start, as a caller that lists them would
+	DNS []int `json:"dns,omitempty"`
 }
 
 type Op struct {
@@ -268,6 +272,12 @@ func RunWith(t *testing.T, c Case, st *Stores) *Result {
 				keyStores[r.DedupKey] = sim.NewStore(reqStore, true)
 				if err := rq.GS.RegisterPersistenceOption(fmt.Sprintf("k%d", r.DedupKey), keyStores[r.DedupKey].LinkSystem()); err != nil {
 					panic(err)
+				}
+			}
+			if r.DedupKey > 0 {
+				for _, k := range r.DNS {
+					cc := b.Order[k%len(b.Order)]
+					keyStores[r.DedupKey].Put(cc, b.Data[cc])
 				}
 			}
 			if err := rs.GS.RegisterPersistenceOption(fmt.Sprintf("s%d", i), gated(ss.LinkSystem(), sgates[i])); err != nil {
@@ -569,6 +579,14 @@ func RunWith(t *testing.T, c Case, st *Stores) *Result {
 				return
 			}
 			exts := []graphsync.ExtensionData{{Name: extIndex, Data: basicnode.NewInt(int64(i))}}
+			if c.Reqs[i].DedupKey > 0 && len(c.Reqs[i].DNS) > 0 {
+				set := cid.NewSet()
+				for _, k := range c.Reqs[i].DNS {
+					set.Add(b.Order[k%len(b.Order)])
+				}
+				exts = append(exts, graphsync.ExtensionData{Name: graphsync.ExtensionDoNotSendCIDs, Data: cidset.EncodeCidSet(set)})
+				res.Labels["do-not-send-cids"] = true
+			}
 			results[i] = w.Request(rq, scen.RespID, cidlink.Link{Cid: RootOf(b, c.Reqs[i].Root)}, sel, exts...)
 			res.Reqs[i].Started = true
 		}
